@@ -675,7 +675,7 @@ func canonWire(hs []byte) string {
 			for p := 2; p+4 <= len(b); {
 				g := unG(uint16(b[p])<<8 | uint16(b[p+1]))
 				l := int(b[p+2])<<8 | int(b[p+3])
-				ss = append(ss, fmt.Sprintf("%d/%d", g, l))
+				ss = append(ss, fmt.Sprintf("%d-%d", g, l))
 				p += 4 + l
 			}
 			c = "k" + strings.Join(ss, ".")
